@@ -48,6 +48,7 @@ class Field:
     family: str = ''
     name: str = ''
     doc: bool = False
+    qualified: bool = False                # spell arbitrary-int field types as arbitrary_int::uN
 
     @property
     def w(self):
